@@ -5,7 +5,7 @@ cd "$(dirname "$0")/.."
 /venv/bin/python tools/gen_callsigs.py > /dev/null || exit 1
 /venv/bin/python tools/gen_refnames.py > /dev/null || exit 1
 bad=0
-for p in C01 C02 C03 C04 C05 C06 C07 C08 C09 C10 C11 C12 C13 C14 C16 C17 C18 C19 C20; do
+for p in C01 C02 C03 C04 C05 C06 C07 C08 C09 C10 C11 C12 C13 C14 C15 C16 C17 C18 C19 C20; do
   out=$(/venv/bin/python -m engine.check $p); rc=$?
   if [ $rc -ne 0 ]; then echo "$p exit $rc"; echo "$out" | grep -v KNOWN | tail -4 | cut -c1-300; bad=1; fi
 done
